@@ -41,6 +41,28 @@ CHECKS = {
         "dependency) is listed in known_findings.json.",
    technique="TLA+ state machines checked by TLC; every state replayed into read_namespace, error location compared",
    design="4 C17"),
+ "C02": dict(
+   text="TLC checks on Layout.tla that the declarative layout rules of the Specification (bit length sets, alignment, extent, "
+        "least prefix / tag widths, 32-bit header) coincide with the pairwise symbolic aggregation pydsdl performs "
+        "(Expand(BLSsym(T)) = BLS(T), analytic solver exact on it), and the property's 'in particular' clauses, on every "
+        "type of the universe. Every TLC state is materialised as DSDL, read with read_namespace and the real type's "
+        "bit_length_set, alignment_requirement, extent, length/tag/header widths are compared; capacities and variant "
+        "counts are enumerated by bit length 1..64 at both ends of each interval.",
+   note="Universe: all primitive widths 1..64 in flat shapes (capacities 1-3, six sibling field types incl. sub-byte, composite "
+        "and variable-length), small widths nested 2 (quick) / 3 (thorough) levels, extents max/+8/+24. Union tag boundaries "
+        "are instantiated up to 2**9 (quick) / 2**13 (thorough) variants; beyond that the rule is checked on the spec only.",
+   technique="TLA+ declarative layout vs symbolic aggregation checked by TLC; every state materialised and compared",
+   design="4 C02"),
+ "C08": dict(
+   text="TLC checks on Layout.tla that the offsets the iterators compute chain into the type's bit length set, are aligned "
+        "for every field, and that `_offset_` padded to the next field's alignment is that field's offset, for every "
+        "composite / fixed array of the universe and eight base offset sets. Every state is materialised; "
+        "iterate_fields_with_offsets / enumerate_elements_with_offsets (queried repeatedly on one object) and the printed "
+        "intrinsics `_offset_` (every position), `T._bit_length_`, `T._extent_` are compared with the specification.",
+   note="Same universe as C02; base sets {0},{8},{1},{0,4,8},{3,16},{7,9},{0,64},{0,32,64}. That offsets are the positions the "
+        "encoder really uses is checked in Wire.tla (C06).",
+   technique="TLA+ offset rules checked by TLC; every state materialised, iterators and @print intrinsics compared",
+   design="4 C08"),
 }
 
 NOT_YET = "check not built yet in this round (see DESIGN.md section 9 build order)"
